@@ -134,13 +134,13 @@ def lattice_part(chk: Check, rng, n, shards):
                         if lab not in own:
                             continue
                         c = float(rd.clp.sel(spectral=float(v["d"]["axis"][g_i]), clp_label=lab))
-                        if abs(c - float(val)) > 1e-9 * max(1, abs(float(val))):
+                        if not (abs(c - float(val)) <= 1e-9 * max(1, abs(float(val)))):      # NaN-safe
                             chk.violation(f"Simulate[estimated clp]: {feats}", f"{label} clp[{lab}] at {v['d']['axis'][g_i]} = {c}, generating clp / dataset scale = {float(val)} (case {cid})", rep)
                             break
                 else:
                     for (gl, ml), val in v["gclp"].items():
                         c = float(rd.clp.sel(global_clp_label=gl, clp_label=ml))
-                        if abs(c - float(val)) > 1e-9:
+                        if not (abs(c - float(val)) <= 1e-9):      # NaN-safe
                             chk.violation(f"Simulate[estimated full-model clp]: {feats}", f"{label} clp[{gl},{ml}] = {c}, specification {float(val)} (case {cid})", rep)
                             break
         if len(feats) >= 3:
